@@ -32,10 +32,21 @@
    "when node authentication is required ...":
        the announced node ID is among the URI SANs.
 
+   Empty identifiers.  The empty string is an identifier like any other
+   ([empty_id], the number 0), with these consequences spelled out:
+     - a peer that announces an EMPTY node ID still announced a node ID: a
+       certificate carrying URI SANs none of which is the (empty) announced ID
+       contradicts it, and when node authentication is required the announced ID
+       must be among the URI SANs -- an empty ID can only "match" an empty URI
+       SAN, never a non-empty one;
+     - an empty DNS name is no name: the endpoint then knows no DNS name for its
+       peer ([known_dns_name] is [None]), so DNS SANs contradict nothing and can
+       authenticate nothing.
+
    Which DNS name an endpoint knows (RFC 9174 4.4.1/4.4.2: the DNS-ID is checked
    by the entity that looked the peer up by name): the active endpoint, when the
-   name it connected to is a name and not the address literal itself; a passive
-   endpoint only has the address the connection came from. *)
+   name it connected to is a (non-empty) name and not the address literal itself;
+   a passive endpoint only has the address the connection came from. *)
 From Coq Require Import List NArith Bool.
 Import ListNotations.
 
@@ -75,9 +86,14 @@ Section Authn.
     && (negb require_node || memb node uris).
 End Authn.
 
+Definition empty_id : N := 0%N.
+
 (* the DNS name an endpoint knows for its peer *)
 Definition known_dns_name (passive : bool) (connect_name addr : N) : option N :=
-  if passive then None else if N.eqb connect_name addr then None else Some connect_name.
+  if passive then None
+  else if N.eqb connect_name addr then None
+  else if N.eqb connect_name empty_id then None
+  else Some connect_name.
 
 (* Use of TLS.  "TLS is attempted exactly when both contact headers offer it, a
    node that requires TLS never proceeds in the clear, and one that forbids it
